@@ -164,6 +164,18 @@ func VerifyFunction(p *Program, name string, opt Options) FnReport {
 		}
 		rep.Results = append(rep.Results, r)
 	}
+	for _, ti := range p.Spec.TypeInvs {
+		if !fc.typeInvUsed[ti.Type] {
+			continue
+		}
+		bad := p.AllocOnlyInScan(ti.Type, ti.Ctor)
+		r := OblResult{Oblig: Oblig{Fn: name, Name: fc.Name + "/scan.allocated-only-in." + ti.Ctor, Kind: "scan.typeinv", Where: ti.Type, Text: ti.Type + " is allocated only in " + ti.Ctor}, Status: "proved", Raw: "scan", Solver: "ssa-scan"}
+		if len(bad) > 0 {
+			r.Status = "failed"
+			r.Output = strings.Join(bad, "; ")
+		}
+		rep.Results = append(rep.Results, r)
+	}
 	for _, oc := range p.Spec.OnlyCalledFrom {
 		if oc[1] != name {
 			continue
